@@ -232,6 +232,13 @@ class Plan:
                     out.append(f"{vis}fn {name}(x: Option<{arg}>) -> Option<{arg}> {{ x }}")
                 elif m.overrides is None or name in m.overrides:
                     out.append(f'{vis}fn {name}() -> &\'static str {{ "{tag}" }}')
+            elif kind == "afn":
+                # declared `-> impl Future` in the trait (and written that way in odd-numbered blocks), `async fn` in even-numbered blocks:
+                # legal Rust, the qualifiers of a block's fn need not be those of the declaration (seeded change C14h)
+                if bi % 2 == 0:
+                    out.append(f"{vis}async fn {name}(&self) -> u8 {{ {bi % 200} }}")
+                else:
+                    out.append(f"{vis}fn {name}(&self) -> impl core::future::Future<Output = u8> {{ async {{ {bi % 200} }} }}")
             elif kind == "elfn":
                 # a late-bound lifetime named in the trait (and in even-numbered blocks), elided in odd-numbered blocks: legal Rust
                 if bi % 2 == 0:
@@ -267,6 +274,8 @@ class Plan:
                 items.append(f"fn {name}(&self) -> &'static str" + (f' {{ "dflt.{name}" }}' if has_default else ";"))
             elif kind == "ltfn":
                 items.append(f"fn {name}(x: {self.lt_ty}) -> {self.lt_ty};")
+            elif kind == "afn":
+                items.append(f"fn {name}(&self) -> impl core::future::Future<Output = u8>;")
             elif kind == "elfn":
                 items.append(f"fn {name}<'q>(x: &'q u8) -> &'q u8;")
             elif kind in ("tpfn", "pdfn"):
